@@ -471,6 +471,12 @@ func (h *ccH) garbageDecode() {
 	r := h.c.Rnd
 	k := 1 + r.Intn(4)
 	sec := h.honestSection(k)
+	if len(sec)/64 < k {
+		k = len(sec) / 64 // the section holds fewer slots when two generated candidates share an address
+	}
+	if k == 0 {
+		return
+	}
 	blen, length := len(sec), len(sec)
 	arr := sec
 	slotNo := r.Intn(k)
@@ -591,6 +597,9 @@ func (h *ccH) garbageLoad() {
 	r := h.c.Rnd
 	k := r.Intn(4)
 	sec := h.honestSection(k)
+	if len(sec)/64 < k {
+		k = len(sec) / 64
+	}
 	body := ccItem(2, uint32(len(sec)), sec)
 	file := ccFile(body, uint32(len(body)))
 	cls := ""
@@ -632,7 +641,7 @@ func (h *ccH) garbageLoad() {
 	case 10:
 		cls = "two-candidate-items"
 		sec2 := h.honestSection(1 + r.Intn(3))
-		if k > 0 && r.Intn(2) == 0 {
+		if k > 0 && len(sec2) >= 64 && r.Intn(2) == 0 {
 			copy(sec2[8:64], sec[8:64]) // same address as the first item's first slot
 			ccPut32(sec2, 4, uint32(sec[4]))
 		}
